@@ -710,11 +710,23 @@ def gen_D(thorough):
     # --- D3: net_if_stats of one interface: MTU x flags x ethtool answer x name
     mtus = [0, 68, 1500, 65536, 2**31 - 1] + ([1, 9000, 65535, -1] if thorough else [])
     flagv = [0, 0xFFFF, 0x1043] + [b for b, _ in IFF]
-    eths = [[d, lo, hi] for d in (0, 1, 255, 2)
-            for lo, hi in ((0, 0), (10, 0), (1000, 0), (0xFFFF, 0), (0, 1), (0x86a0, 1), (0xFFFF, 0x7FFF),
-                           (0, 0x8000), (0xFFFF, 0xFFFF))]
+    speeds = ((0, 0), (10, 0), (1000, 0), (0xFFFF, 0), (0, 1), (0x86a0, 1), (0xFFFF, 0x7FFF),
+              (0, 0x8000), (0xFFFF, 0xFFFF))          # last one = SPEED_UNKNOWN (-1), what a link-less NIC answers
+    eths = [[d, lo, hi] for d in (0, 1, 255) for lo, hi in speeds]
+    eths += [[2, 1000, 0], [2, 0xFFFF, 0xFFFF]]       # a duplex code outside the ethtool ABI
     eths += ["EOPNOTSUPP", "EINVAL", "ENODEV", "EIO"]
-    for mtu, fl, eth, nm in itertools.product(mtus, flagv, eths, ("n1", "n15")):
+    if thorough:
+        prod = itertools.product(mtus, flagv, eths, ("n1", "n15"))
+    else:
+        prod = itertools.chain(
+            itertools.product(mtus, flagv, [[1, 1000, 0]], ("n1", "n15")),
+            itertools.product([1500], [0x1043, 0], eths, ("n1", "n15")))
+    seen = set()
+    for mtu, fl, eth, nm in prod:
+        k = (mtu, fl, str(eth), nm)
+        if k in seen:
+            continue
+        seen.add(k)
         cases.append({"part": "D", "call": "stats",
                       "ifs": [{"name": nm, "mtu": mtu, "flags": fl, "eth": eth}], "addrs": []})
     for err in ("ENODEV", "EIO", "EPERM"):
@@ -1327,6 +1339,7 @@ def run(ctx):
                 violations.append({"cause": cause, "msg": msg, "case": case})
             if r["viol"]:
                 pp["violating"] += 1
+    violations.sort(key=lambda v: (v["cause"], len(json.dumps(v["case"])), json.dumps(v["case"], sort_keys=True)))
     total = sum(p["cases"] for p in per_part.values())
     assert total == sum(len(v) for v in parts.values()), "lost cases"
     distinct = sum(len(p["distinct"]) for p in per_part.values())
